@@ -2243,6 +2243,9 @@ func (self *LockDB) Lock(serverProtocol ServerProtocol, command *protocol.LockCo
 				return nil
 			}
 
+			// granted without waiting for an acknowledgement (the hold is never persisted, or already is):
+			// it is not pending, whatever AddLock assumed from the request's flags
+			lock.ackCount = 0xff
 			lockData := lockManager.GetLockData()
 			if command.Flag&protocol.LOCK_FLAG_CONTAINS_DATA != 0 {
 				lockManager.ProcessLockData(command, lock, false)
@@ -2654,6 +2657,7 @@ func (self *LockDB) wakeUpWaitLock(lockManager *LockManager, waitLock *Lock, ser
 	if waitLock.command.Expried > 0 {
 		lockManager.AddLock(waitLock)
 		lockManager.locked++
+		waitLock.ackCount = 0xff // granted without waiting for an acknowledgement: not pending
 
 		lockData := lockManager.GetLockData()
 		if waitLock.command.Flag&protocol.LOCK_FLAG_CONTAINS_DATA != 0 {
